@@ -622,7 +622,24 @@ def build_unit(template_path, repo_root, canary=None):
                     files[fpath] = RustFile(fpath, open(fpath).read())
                 except ScanError as e:
                     raise WeaveError('cannot scan %s: %s' % (ex.file, e))
-            weave_extract(ub, ex, files[fpath], repo_root)
+            n_lines, n_clauses, n_extracts = len(ub.lines), len(ub.clauses), len(ub.extracts)
+            try:
+                weave_extract(ub, ex, files[fpath], repo_root)
+            except WeaveError as e:
+                # a LIFTED block (E9/E14: nothing else in the unit calls it) whose anchors are lost on restructured code is left out of
+                # the unit instead of stopping it: the other functions of the unit are still decided (a failure among them is a
+                # VIOLATION); with no failure the unit is undecided, since this block could not be checked
+                lifted_block = any(d[0] in ('lift', 'lift-loop', 'lift-range') for d in ex.directives)
+                if not (lifted_block and str(e).startswith('lost anchor')):
+                    raise
+                del ub.lines[n_lines:]
+                del ub.origin[n_lines:]
+                del ub.clauses[n_clauses:]
+                del ub.extracts[n_extracts:]
+                if not hasattr(ub, 'left_out'):
+                    ub.left_out = []
+                ub.left_out.append({'alias': ex.alias or ex.path, 'reason': str(e)})
+                ub.emit('// LEFT OUT: %s (%s)' % (ex.alias or ex.path, e), {'k': 'prelude', 'tline': ex.tline})
     return ub
 
 
@@ -1344,6 +1361,10 @@ def do_lift(code, d, rec):
     b = m.find('{', pos + len(anchor) - 1) if not anchor.rstrip().endswith('{') else pos + len(anchor.rstrip()) - 1
     e = match_close(m, b)
     body = code[b:e + 1]
+    head = m[pos + len(anchor):b].strip() if not anchor.rstrip().endswith('{') else ''
+    if head and name == 'lift':
+        # the arm is an expression with a block (`=> match res { .. }`, `=> if c { .. }`): the whole expression is lifted
+        body = '{\n' + code[pos + len(anchor):b].strip() + ' ' + body + '\n}'
     if name == 'lift-loop':
         bm = mask(body)
         if re.search(r'\b(for|while|loop)\b', bm[1:]) and re.search(r'\bcontinue\b', bm):
